@@ -90,14 +90,18 @@ func (j *jsonSubProto) Unpack(m erpc.Message) error {
 		return err
 	}
 
-	m.SetSize(uint32(len(b)))
+	if err = m.SetSize(uint32(len(b))); err != nil {
+		return err
+	}
 
 	s := goutil.BytesToString(b)
 
 	// read transfer pipe
 	xferPipe := gjson.Get(s, "xferPipe")
 	for _, r := range xferPipe.Array() {
-		m.XferPipe().Append(byte(r.Int()))
+		if err = m.XferPipe().Append(byte(r.Int())); err != nil {
+			return err
+		}
 	}
 
 	// read body
